@@ -26,6 +26,19 @@ typedef struct {
     char name[16];
 } DisasmLabel;
 
+/* Does an instruction start at this offset (or the code end there)?  Walks
+ * the code the way disasm_function does, so that every named target gets
+ * its label line. */
+static bool is_instruction_boundary(const uint8_t *code, uint32_t code_size, uint32_t offset) {
+    uint32_t pos = 0;
+    while (pos < offset && pos < code_size) {
+        DecodedInstruction instr;
+        uint32_t consumed = isa_decode(code + pos, code_size - pos, &instr);
+        pos += consumed ? consumed : 1;
+    }
+    return pos == offset;
+}
+
 static uint32_t collect_jump_targets(const uint8_t *code, uint32_t code_size,
                                       DisasmLabel *labels, uint32_t max_labels) {
     uint32_t label_count = 0;
@@ -53,7 +66,9 @@ static uint32_t collect_jump_targets(const uint8_t *code, uint32_t code_size,
                                 break;
                             }
                         }
-                        if (!found && label_count < max_labels) {
+                        /* A target inside an instruction cannot carry a label: it prints as a number */
+                        if (!found && label_count < max_labels &&
+                            is_instruction_boundary(code, code_size, target)) {
                             labels[label_count].offset = target;
                             snprintf(labels[label_count].name,
                                      sizeof(labels[label_count].name),
